@@ -171,7 +171,11 @@ func (w *Writer) encodeEnd() {
 
 func (w *Writer) encodeChar(c uint) {
 	// travel from leaf to root
-	i, j := uint(0), int(0)
+	//
+	// The code is collected in the most significant bits of i. The adaptive
+	// tree can grow deeper than 16 levels, so a 16 bit accumulator (as in the
+	// original implementation) would silently drop the bits closest to the leaf.
+	i, j := uint64(0), int(0)
 	k := w.z.prnt[c+_T]
 	for {
 		i >>= 1
@@ -179,14 +183,20 @@ func (w *Writer) encodeChar(c uint) {
 
 		// if node's address is odd-numbered, choose bigger brother node
 		if k&1 != 0 {
-			i += 0x8000
+			i |= 1 << 63
 		}
 
 		if k = w.z.prnt[k]; k == _R {
 			break
 		}
 	}
-	w.putCode(j, i)
+
+	// putCode outputs at most 16 bits at a time
+	for ; j > 16; j -= 16 {
+		w.putCode(16, uint(i>>48))
+		i <<= 16
+	}
+	w.putCode(j, uint(i>>48))
 	w.z.update(int(c))
 }
 
